@@ -19,6 +19,7 @@ in the SARIF output (ruleId, level, message, locations; severity -> level table)
 import concurrent.futures
 import json
 import os
+import re
 import shutil
 import sys
 import time
@@ -82,34 +83,27 @@ def strtab_file():
 
 
 def tlc_env(mode, strtab, **kw):
-    env = {"MODE": mode, "STRTAB": strtab, "OUT": "/dev/null", "OBS": "/dev/null", "NCASES": "0", "SEED": "1", "DEEP": "0"}
+    env = {"JAVA_TOOL_OPTIONS": "-Xss512m", "MODE": mode, "STRTAB": strtab, "OUT": "/dev/null", "OBS": "/dev/null", "NCASES": "0", "SEED": "1", "DEEP": "0"}
     env.update(kw)
     return env
 
 
-def tlc_laws(strtab):
-    r = vlib.tlc("Report", "Report.cfg", env=tlc_env("laws", strtab), timeout=900, xmx="2g")
-    if r.violation:
-        return False, r.out[-1500:]
-    if not r.ok or '"LAWS"' not in r.out:
-        raise vlib.InfraError("Report.tla laws failed to run\n" + r.out[-3000:])
-    return True, ""
-
-
 def tlc_gen(strtab, ncases, seed, deep):
+    """one TLC run: the laws of the specification (a violated law is a specification error, not a finding) and the cases"""
     out = os.path.join(vlib.mktmp("c26gen"), "cases.ndjson")
     r = vlib.tlc("Report", "Report.cfg", env=tlc_env("gen", strtab, OUT=out, NCASES=str(ncases), SEED=str(seed), DEEP="1" if deep else "0"),
-                 timeout=1800, xmx="6g")
+                 timeout=2400, xmx="6g")
+    if r.violation:
+        raise vlib.InfraError("the laws of Report.tla do not hold (specification error)\n" + r.out[-2000:])
     if not r.ok:
         raise vlib.InfraError("Report.tla gen failed\n" + r.out[-3000:])
     cases = vlib.read_ndjson(out)
     if len(cases) != ncases:
         raise vlib.InfraError("Report.tla gen wrote %d of %d cases\n%s" % (len(cases), ncases, r.out[-2000:]))
     pools = {}
-    import re
-    m = re.search(r'"MSGS",\s*(\d+),\s*"FILES",\s*(\d+),\s*"TEMPLATES",\s*(\d+),\s*"LITERALS",\s*(\d+),\s*"REALFILES",\s*(\d+)', r.out)
+    m = re.search(r'"MSGS",\s*(\d+),\s*"FILES",\s*(\d+),\s*"TEMPLATES",\s*(\d+),\s*"LITERALS",\s*(\d+),\s*"REALFILES",\s*(\d+),\s*"BINFILES",\s*(\d+)', r.out)
     if m:
-        pools = dict(zip(("messages", "file_names", "templates", "literals", "real_file_names"), map(int, m.groups())))
+        pools = dict(zip(("messages", "file_names", "templates", "literals", "real_file_names", "file_names_with_raw_bytes"), map(int, m.groups())))
     return cases, pools
 
 
@@ -170,12 +164,16 @@ def run_case(case):
             with open(os.path.join(root, "f.c"), "w") as f:
                 f.write("\n".join(ADDON_SRC) + "\n")
             os.mkdir(os.path.join(root, "lines"))
-            with open(os.path.join(root, "lines", "f.c.dump.lines"), "wb") as f:
+            with open(os.path.join(root, "lines", "f.c.lines"), "wb") as f:
                 for a in case["lines"]:
                     f.write(rc.addon_line(a))
             with open(os.path.join(root, "fake.json"), "w") as f:
-                json.dump({"script": os.path.join(vlib.VERIF, "drivers", "fakeaddon_report.py"), "python": sys.executable,
-                           "args": ["--lines-dir", os.path.join(root, "lines")]}, f)
+                if case["cid"] % 6 == 1:      # the addon as a Python script (run through runaddon.py) ...
+                    desc = {"script": os.path.join(vlib.VERIF, "drivers", "fakeaddon_report.py"), "python": sys.executable}
+                else:                         # ... or as an executable: same output, no interpreter start
+                    desc = {"executable": os.path.join(vlib.VERIF, "drivers", "fakeaddon_report.sh")}
+                desc["args"] = ["--lines-dir", os.path.join(root, "lines")]
+                json.dump(desc, f)
             files = ["f.c"]
             extra = ["--addon=fake.json"]
             src = [{"name": rc.tok("f.c"), "lines": [rc.tok(l) for l in ADDON_SRC]}]
@@ -192,9 +190,26 @@ def run_case(case):
         shutil.rmtree(root, ignore_errors=True)
 
 
-def run_cases(cases):
+def run_cases(cases, budget_s=None, floor=0):
+    """run the cases in order with WORKERS parallel runs; with a time budget the walk stops early (never before `floor`
+    cases): the cases are a walk through the product space, a prefix of it is a smaller sample of the same kind"""
+    t0 = time.time()
+    obs = []
     with concurrent.futures.ThreadPoolExecutor(max_workers=WORKERS) as ex:
-        return list(ex.map(run_case, cases))
+        pending = []
+        it = iter(cases)
+        done = False
+        while True:
+            while not done and len(pending) < WORKERS * 2:
+                c = next(it, None)
+                if c is None or (budget_s is not None and len(obs) + len(pending) >= floor and time.time() - t0 > budget_s):
+                    done = True
+                    break
+                pending.append(ex.submit(run_case, c))
+            if not pending:
+                break
+            obs.append(pending.pop(0).result())
+    return obs
 
 
 # ------------------------------------------------------------------ reporting
@@ -217,7 +232,7 @@ def nonplain(ts):
     return any(len(t) != 1 or not t.isalnum() and t not in " ." for t in ts)
 
 
-def collect(cases, verdicts):
+def collect(cases, verdicts, replay_path=None):
     by_cid = {c["cid"]: c for c in cases}
     per_key = {}
     for v in verdicts:
@@ -227,7 +242,7 @@ def collect(cases, verdicts):
     for key in sorted(per_key):
         hits = per_key[key]
         cid, d = hits[0]
-        p = vlib.save_replay(PID, key.replace(":", "_").replace("/", "_"), {"case": by_cid[cid], "deviation": d, "cases_with_this_key": len(hits)})
+        p = replay_path or vlib.save_replay(PID, key.replace(":", "_").replace("/", "_"), {"case": by_cid[cid], "deviation": d, "cases_with_this_key": len(hits)})
         violations.append({"key": key, "what": "[%s] %s; %d case(s), first: %s" % (d["fmt"], d["what"], len(hits), describe(by_cid[cid])[:900]), "replay": p})
     return violations, per_key
 
@@ -242,18 +257,21 @@ def main(tier, seed, replay=None):
         verdicts = tlc_judge(strtab, obs)
         for d in verdicts[0]["devs"]:
             print("deviation %s: %s" % (d["key"], d["what"]))
-        violations, _ = collect([payload["case"]], verdicts)
+        violations, _ = collect([payload["case"]], verdicts, replay_path=replay)
         code, new, known = vlib.verdict(PID, violations)
         if not violations:
             print("replay: all three formats as specified")
         return code
-    ok, why = tlc_laws(strtab)
-    if not ok:
-        raise vlib.InfraError("the laws of Report.tla do not hold (specification error)\n" + why)
-    ncases = 240 if tier == "quick" else 6000
+    # The cases are a walk through the product of the pools: quick walks as far as ~2.5 minutes of runs allow on the shared
+    # machine (at least 36 cases, at most 150), thorough ~25 minutes with the deeper pools (at least 300, at most 2400).
+    ncases = 150 if tier == "quick" else 2400
     cases, pools = tlc_gen(strtab, ncases, seed, tier != "quick")
     t_gen = time.time() - t0
-    obs = run_cases(cases)
+    if tier == "quick":
+        obs = run_cases(cases, budget_s=max(60.0, 150.0 - t_gen), floor=36)
+    else:
+        obs = run_cases(cases, budget_s=1500.0, floor=300)
+    cases = [o["case"] for o in obs]
     t_run = time.time() - t0 - t_gen
     verdicts = tlc_judge(strtab, obs)
     violations, per_key = collect(cases, verdicts)
